@@ -408,36 +408,33 @@ where
             vassert!(try_dump(&c, *i).as_ref() == Some(want), "VF:clone.copy_reads_differ");
         }
     }
-    // identical further pushes answer identically
+    // identical further pushes answer identically (on a second pair of copies, so that the rest of the harness observes
+    // the two regions exactly as they were right after cloning)
     let z = v[7] % S::POOL;
-    let a = match try_put(&mut src, z) {
-        Some(a) => a,
-        None => return,
-    };
-    let b = try_put(&mut c, z);
-    vassert!(b == Some(a), "VF:clone.further_push_index_differs");
-    let b = b.unwrap();
-    let za = ref_dump(&src, a);
-    if let Some(want) = &za {
-        vassert!(try_dump(&c, b).as_ref() == Some(want), "VF:clone.further_push_read_differs");
+    {
+        let (mut s2, mut c2) = (src.clone(), c.clone());
+        if let Some(a) = try_put(&mut s2, z) {
+            let b = try_put(&mut c2, z);
+            vassert!(b == Some(a), "VF:clone.further_push_index_differs");
+            if let Some(want) = ref_dump(&s2, a) {
+                vassert!(try_dump(&c2, b.unwrap()) == Some(want), "VF:clone.further_push_read_differs");
+            }
+        }
     }
-    // then diverge: more data on the original, clear on the copy
+    // independence: operations on one side never change what the other side reads
     let w = (z + 1) % S::POOL;
-    if try_put(&mut src, w).is_none() {
-        return;
-    }
-    for (i, o) in idx.iter().zip(&orig) {
+    let c_before: Vec<Option<Vec<u8>>> = idx.iter().map(|i| ref_dump(&c, *i)).collect();
+    let _ = try_put(&mut src, w);
+    let _ = try_put(&mut src, z);
+    for (i, o) in idx.iter().zip(&c_before) {
         if let Some(want) = o {
             vassert!(try_dump(&c, *i).as_ref() == Some(want), "VF:clone.not_independent_after_push");
         }
     }
-    if let Some(want) = &za {
-        vassert!(try_dump(&c, b).as_ref() == Some(want), "VF:clone.not_independent_after_push");
-    }
-    let before: Vec<Option<Vec<u8>>> = idx.iter().map(|i| ref_dump(&src, *i)).collect();
+    let s_before: Vec<Option<Vec<u8>>> = idx.iter().map(|i| ref_dump(&src, *i)).collect();
     c.clear();
     let _ = try_put(&mut c, w);
-    for (i, o) in idx.iter().zip(&before) {
+    for (i, o) in idx.iter().zip(&s_before) {
         if let Some(want) = o {
             vassert!(try_dump(&src, *i).as_ref() == Some(want), "VF:clone.not_independent_after_clear");
         }
